@@ -16,18 +16,21 @@ fn rule_sets() -> Vec<(&'static str, Vec<Rule>)> {
         ("staging+qa", vec![Rule { pattern: "staging".into(), label: "beta", number: Some(2), mode: "commit" }, Rule { pattern: "qa/*".into(), label: "rc", number: None, mode: "tag" }]),
         ("star-first", vec![Rule { pattern: "*".into(), label: "alpha", number: None, mode: "commit" }, Rule { pattern: "develop".into(), label: "beta", number: Some(1), mode: "commit" }]),
         ("a-shadows-ab", vec![Rule { pattern: "a/*".into(), label: "beta", number: None, mode: "commit" }, Rule { pattern: "a/b/*".into(), label: "rc", number: None, mode: "tag" }]),
+        // rule prefixes that themselves contain an all-digit segment: the number is looked for *after* the prefix
+        ("digit-prefixes", vec![Rule { pattern: "2024/*".into(), label: "rc", number: None, mode: "tag" }, Rule { pattern: "team/7/*".into(), label: "beta", number: None, mode: "commit" }, Rule { pattern: "99".into(), label: "alpha", number: Some(4), mode: "commit" }]),
     ]
 }
 
 // incl. tags that carry a post / dev / epoch part without a pre-release
 const TAGS: [&str; 9] = ["1.2.3", "0.0.0", "1.2.3-rc.1", "1.2.3-alpha.5.post.2", "1.2.3.post3", "2!1.2.3", "1.2.3-post.4", "1.2.3-epoch.2.post.4.dev.9", "1.2.3-dev.9"];
-const BRANCHES: [Option<&str>; 39] = [None, Some("main"), Some("develop"), Some("developx"), Some("release"), Some("release/1"), Some("release/1/x"), Some("release/x"),
+const BRANCHES: [Option<&str>; 43] = [None, Some("main"), Some("develop"), Some("developx"), Some("release"), Some("release/1"), Some("release/1/x"), Some("release/x"),
     Some("release/x/7"), Some("release/007"), Some("releasex"), Some("release1"), Some("releases/2"), Some("feature/7/foo"), Some("99"), Some("a/b/10"), Some("a/3"),
     Some("feature/4294967296"), Some("fé"), Some("staging"), Some("qa/5"), Some("qa/x"), Some("qa"),
     Some("feature/+5/login"), Some("release/+7"), Some("a/-3"), Some("feature/99999999999/7"),
     // white space, non-ASCII digit, case, empty / leading segments, zero, an exact-rule name used as a prefix
     Some("release/1 "), Some("release/ 1"), Some("release/٣"), Some("release/1_2"), Some("RELEASE/1"), Some("release//5"), Some("/release/1"), Some("release/0"),
-    Some("release/00"), Some("develop/3"), Some("release/1/2"), Some("release/x/")];
+    Some("release/00"), Some("develop/3"), Some("release/1/2"), Some("release/x/"),
+    Some("2024/rel/3"), Some("2024/topic"), Some("team/7/fix/12"), Some("team/7/x")];
 
 #[derive(Clone, Debug)]
 struct Case { tag: usize, branch: usize, distance: Option<u64>, dirty_flag: usize, post: Option<u64>, label: Option<&'static str>, num: Option<u32>, mode: Option<&'static str>, rules: usize, hash_len: Option<usize>, stdin: bool }
@@ -177,7 +180,7 @@ fn main() {
     cov.evaluations = all.get("runs") + all.get("resolve_for_branch_cases");
     cov.traces_validated = cov.evaluations;
     cov.distinct_nontrivial = all.get("active_cases");
-    cov.rule = format!("full product tag{TAGS:?} x {} branch names (incl. prefix-without-slash, digit segments, zero-padded, u32-overflowing, non-ASCII, absent) x distance[none,0,1,5] x dirty[unset,--dirty,--no-dirty,--clean] x --post x --pre-release-label x --pre-release-num x --post-mode x 4 rule sets{}, run through run_flow_pipeline with --output-format zerv on source none{} and compared field by field with R-FLOW; hash lengths 0..11 x branches x 2 tags against R-SIP; BranchRules::resolve_for_branch directly. non-trivial = active (dirty or ahead) cases", BRANCHES.len(), if ctx.quick() { " (quick: 4 tags, distance without 5)" } else { "" }, if ctx.quick() { " (+ a strided stdin slice)" } else { " and stdin" });
+    cov.rule = format!("full product tag{TAGS:?} x {} branch names (incl. prefix-without-slash, digit segments, zero-padded, u32-overflowing, non-ASCII, absent) x distance[none,0,1,5] x dirty[unset,--dirty,--no-dirty,--clean] x --post x --pre-release-label x --pre-release-num x --post-mode x 5 rule sets{}, run through run_flow_pipeline with --output-format zerv on source none{} and compared field by field with R-FLOW; hash lengths 0..11 x branches x 2 tags against R-SIP; BranchRules::resolve_for_branch directly. non-trivial = active (dirty or ahead) cases", BRANCHES.len(), if ctx.quick() { " (quick: 4 tags, distance without 5)" } else { "" }, if ctx.quick() { " (+ a strided stdin slice)" } else { " and stdin" });
     cov.exhaustive = true;
     cov.samples = vec![json!(argv(&cases[cases.len() / 2], &sets)), json!(argv(&cases[cases.len() - 3], &sets)), json!(argv(&hs[17], &sets))];
     cov.set("clause_counts", all.to_json());
